@@ -6,6 +6,7 @@ from feoxlint import locks as L
 from feoxlint import rulekit as R
 from feoxlint.model import path_matches, call_matches
 from rules.common import drop_impl, edge_targets
+from rules import common as S
 
 EXPLANATION = """
 A may-hold -> acquire graph over lock classes (parking_lot / std guards, scc bucket entries, closures run under a bucket
@@ -400,6 +401,123 @@ def check_final_flush(ctx):
             ctx.check(not any(x in r for x in ff), inst, "FOLLOW", b.path, "once the limit is reached no further flush attempt is made", b.where(s_))
 
 
+def check_sweeper_loop(ctx):
+    """the sweeper thread is joined by TtlSweeper::stop (from FeoxStore::drop), so its loop must leave once the flag stop()
+    sets is raised: (1) the flag the loop polls is the very Arc stop() stores to; (2) every way from one sweeping run back to
+    the next sleep passes a test of that flag, and a raised flag leads to the return without sleeping or sampling again;
+    (3) one sweeping run is bounded: it leaves through an iteration counter that provably grows, or through an elapsed-time
+    test against an Instant taken before the run; (4) the strong store reference taken for a run is dropped before the next
+    one is taken (the thread never pins the store: the last user handle's drop is what closes it)"""
+    from feoxlint import bounds as B
+    inst = "C18.sweeper-loop"
+    b = ctx.fn("ttl_sweep::run_sweeper_loop", inst)
+    if b is None:
+        return
+    sl = ctx.sites(b, R.call("thread::sleep"), inst, exact=1)
+    sm = ctx.sites(b, R.call("ttl_sweep::sample_and_expire_batch"), inst, exact=1)
+    up = ctx.sites(b, R.call("Weak::upgrade"), inst, exact=1)
+    if not (sl and sm and up):
+        return
+    def is_flag(e):
+        return e.k == "call" and (path_matches(e.extra, "Atomic::load") or path_matches(e.extra, "AtomicBool::load")) and any(x.k == "arg" and x.extra[0] == 3 for x in e.walk())
+    fsw = A.pred_switches(b, is_flag)
+    ctx.check(len(fsw) >= 1, inst, "anchor", b.path, "the loop tests its shutdown flag (>= 1 test, found %d)" % len(fsw), None)
+    r, _ = A.reach(b, A.succs(b, sm[0]), stop_at=frozenset(fsw))
+    ctx.check(sl[0] not in r, inst, "DOM", b.path,
+              "every way from a sweeping run back to the next sleep passes a test of the shutdown flag", b.where(sl[0]))
+    raised = A.pred_edges(b, is_flag, "true")
+    ctx.check(len(raised) >= 1, inst, "anchor", b.path, "edges on which the flag is raised (>= 1, found %d)" % len(raised), None)
+    for (s_, l) in raised:
+        r2, _ = A.reach(b, edge_targets_local(b, s_, l))
+        ctx.check(sl[0] not in r2 and sm[0] not in r2, inst, "FOLLOW", b.path, "a raised shutdown flag ends the thread without sleeping or sampling again", b.where(s_))
+    # (3) one run is bounded
+    eng = B.Engine(ctx.prog)
+    bounds = 0
+    def iter_cmp(e):
+        return e.k == "bin" and e.extra in ("Lt", "Le", "Eq") and e.has_field("TtlConfig", "max_iterations")
+    for s_ in A.pred_switches(b, iter_cmp):
+        info = A.switch_info(b, s_)
+        locs = {x.extra for x in info.root.walk() if x.k == "local"}
+        if len(locs) != 1:
+            continue
+        counter = next(iter(locs))
+        items = [(ob, e) for ob, e in B.loop_progress(eng, b, counter, +1) if _in_run(b, e[0], sm, sl)]
+        c = eng.ctx(b)
+        ok = bool(items)
+        for ob, (p, lab) in items:
+            facts = eng.facts_at_edge(c, p, lab)
+            ok = ok and all(eng.entails(c, facts, g, 0) for g in ob.goals)
+        # reaching the limit leaves the run
+        lim = [(s_, l) for l, v in info.edge_vals.items() if v == ("false" if info.root.extra in ("Lt", "Le") else "true")]
+        for (s2, l) in lim:
+            r3, _ = A.reach(b, edge_targets_local(b, s2, l), stop_at=frozenset(sl))
+            ok = ok and sm[0] not in r3
+        if ok and lim:
+            bounds += 1
+    def time_cmp(e):
+        return e.has_call("Instant::elapsed") and e.has_field("TtlConfig", "max_time_per_run")
+    for s_ in A.pred_switches(b, time_cmp):
+        info = A.switch_info(b, s_)
+        nows = [c.nid for c in info.root.calls() if path_matches(c.extra, "Instant::now")]
+        # the Instant is taken before the run: not inside the cycle through the sampling call
+        r4, _ = A.reach(b, A.succs(b, sm[0]), stop_at=frozenset(sl))
+        if not nows or any(x in r4 for x in nows):
+            continue
+        want = "true" if (info.root.k == "call" and (path_matches(info.root.extra, "PartialOrd::gt") or path_matches(info.root.extra, "PartialOrd::ge"))) else None
+        lim = [(s_, l) for l, v in info.edge_vals.items() if want and v == want]
+        ok = bool(lim)
+        for (s2, l) in lim:
+            r3, _ = A.reach(b, edge_targets_local(b, s2, l), stop_at=frozenset(sl))
+            ok = ok and sm[0] not in r3
+        if ok:
+            bounds += 1
+    ctx.check(bounds >= 1, inst, "PROGRESS", b.path, "one sweeping run is bounded (a growing iteration counter with a limit that leaves the run, "
+              "or an elapsed-time limit against an Instant taken before the run); sound bounds found: %d" % bounds, b.where(sm[0]))
+    # (4) the strong reference does not survive into the next upgrade
+    drops = [n.id for n in b.nodes if n.kind == "drop" and "Arc<core::store::FeoxStore>" in n.ev.get("ty", "")]
+    ctx.check(len(drops) >= 1, inst, "anchor", b.path, "drops of the upgraded Arc<FeoxStore> (>= 1, found %d)" % len(drops), None)
+    some = [(s_, l) for (s_, l) in A.pred_edges(b, lambda e: e.k == "call" and path_matches(e.extra, "Weak::upgrade"), "Some")]
+    ctx.check(len(some) == 1, inst, "anchor", b.path, "the upgrade result is matched (Some edge found %d)" % len(some), None)
+    for (s_, l) in some:
+        r5, _ = A.reach(b, edge_targets_local(b, s_, l), stop_at=frozenset(drops))
+        ctx.check(up[0] not in r5, inst, "FOLLOW", b.path, "the strong store reference taken for a run is dropped before the next one is taken", b.where(up[0]))
+    r6, _ = A.reach(b, A.succs(b, sl[0]))
+    ctx.check(up[0] in r6, inst, "DOM", b.path, "the store is upgraded anew for every run (the upgrade follows the sleep inside the loop)", b.where(up[0]))
+    # (1) flag and store identity
+    st = ctx.fn("TtlSweeper::start", inst)
+    if st is None:
+        return
+    clos = [bb for bb in ctx.prog.product_bodies() if bb.parent == st.path and ctx.prog.reaches_name(bb.path, "ttl_sweep::run_sweeper_loop")]
+    ctx.check(len(clos) == 1, inst, "anchor", st.path, "the spawned closure calling run_sweeper_loop (found %d)" % len(clos), None)
+    if len(clos) != 1:
+        return
+    clo = clos[0]
+    calls = ctx.sites(clo, R.call("ttl_sweep::run_sweeper_loop"), inst, exact=1)
+    parent, ups = S.upvar_parent_exprs(ctx.prog, clo)
+    if not calls or parent is None:
+        return
+    for idx, (adt, field, what) in {2: ("TtlSweeper", "shutdown", "the flag the loop polls is a clone of TtlSweeper.shutdown, the flag stop() raises"),
+                                    0: ("TtlSweeper", "store", "the loop's store handle is a clone of the sweeper's Weak (no strong reference is captured)")}.items():
+        e = R.arg_expr(clo, clo.nodes[calls[0]], idx)
+        fld = [x for x in e.walk() if x.k == "field" and x.a and x.a[0].k == "arg" and x.a[0].extra[0] == 1]
+        ok = False
+        if len(fld) == 1:
+            pe = ups.get(int(fld[0].extra[1]))
+            ok = pe is not None and pe.has_field(adt, field) and not any(x.k == "call" and not path_matches(x.extra, "Clone::clone") for x in pe.walk())
+        ctx.check(ok, inst, "PROVENANCE", st.path, what, clo.where(calls[0]))
+    thr = ctx.sites(st, R.call("thread::spawn"), inst, exact=1)
+    hw = ctx.sites(st, R.field_write("TtlSweeper", "handle"), inst, floor=1)
+    if thr and hw:
+        R.dom(ctx, inst, st, thr, hw, "the handle stop() joins is the spawned thread's", a_desc="thread::spawn")
+
+
+def _in_run(b, node, sm, sl):
+    """node lies on a cycle through the sampling call that does not pass the sleep (i.e. inside one run)"""
+    r, _ = A.reach(b, A.succs(b, sm[0]), stop_at=frozenset(sl), sensitive=False)
+    return node in r
+
+
+
 def edge_targets_local(b, s_, l):
     return [t for (t, lab) in b.nodes[s_].succ if lab == l]
 
@@ -411,4 +529,5 @@ def check(ctx):
     check_wait(ctx, g, groups)
     check_poll(ctx, groups)
     check_selfjoin(ctx)
+    check_sweeper_loop(ctx)
     check_shutdown(ctx)
